@@ -37,6 +37,8 @@ pub fn check(tier: Tier) -> Check {
     // persistent back-pressure on the write half (WriteBlock / WriteUnblock events)
     parts.push(Part::new("C06/interleave", json!({"depth": tier.pick(4, 5), "r": 2, "wb": true}), 1, tier.pick(30, 400)));
     parts.push(Part::new("C06/interleave", json!({"depth": tier.pick(3, 4), "wb": true}), 2, tier.pick(30, 400)));
+    // a sliding window of publishes (and other requests) over 60 rounds: each handshake reports its own outcome
+    parts.push(Part::new("C06/sliding", json!({}), 0, 120));
     // publishes issued one after the other on ONE handle object (and on clones of it), some refused
     parts.push(Part::new("C06/interleave", json!({"depth": tier.pick(5, 6), "r": 1, "worker": true}), 0, tier.pick(30, 400)));
     parts.push(Part::new("C06/interleave", json!({"depth": tier.pick(4, 5), "r": 2, "m": 12, "worker": true}), 1, tier.pick(30, 400)));
@@ -68,6 +70,9 @@ fn pub_specs() -> Vec<OpSpec> {
 }
 
 pub fn scenario(name: &str, params: &Value) -> Scenario {
+    if name == "C06/sliding" {
+        return super::c05::sliding("C06", name.to_string(), params.clone());
+    }
     let depth = params["depth"].as_u64().unwrap_or(4) as usize;
     let r = params["r"].as_u64().unwrap_or(0) as u16;
     let params = params.clone();
